@@ -191,6 +191,7 @@ def _join_attrs(syntax, style, attrs):
 def _tag(syntax, style, name, attrs, role):
     """role: 'open' | 'cont' | 'close' | 'inline'."""
     a = _join_attrs(syntax, style, attrs) if attrs else ''
+    style.last_args = a.strip()
     if syntax == 'dtml':
         if role == 'close':
             return '</dtml-%s%s>' % (name, a)
@@ -220,12 +221,19 @@ class Printer:
         self.tokens = []
         self.pos = 0
         self.pins = pins      # None or dict id(node)->'short'/'long'
+        self.open_stack = []  # (block name, its start tag's argument text)
 
     def emit(self, kind, text, info=None):
         if text == '' and kind == 'lit':
             return
         self.tokens.append((kind, text, self.pos, self.pos + len(text), info))
         self.pos += len(text)
+        if kind == 'tag' and info:
+            if info[0] == 'open':
+                self.open_stack.append((info[1], getattr(
+                    self.style, 'last_args', '')))
+            elif info[0] == 'close' and self.open_stack:
+                self.open_stack.pop()
 
     def source(self):
         return ''.join(t[1] for t in self.tokens)
@@ -304,7 +312,22 @@ class Printer:
             self.close(n, 'if', j, first)
         elif k == 'unless':
             attrs = _ref_attrs(sx, st, n['ref'], pin=self.pin(n))
-            self.block1(n, 'unless', attrs, n['body'])
+            name = 'unless'
+            if n.get('as_else') and n['ref']['r'] == 'name':
+                # the deprecated block form <dtml-else NAME>..</dtml-else>
+                # (same meaning as unless); directly inside an if / in / try
+                # it would be read as that block's else when its arguments
+                # repeat (a blank-delimited prefix of) the start tag's
+                attrs = [n['ref']['n']]
+                name = 'else'
+                if self.open_stack and self.open_stack[-1][0] in (
+                        'if', 'in', 'try'):
+                    sargs = self.open_stack[-1][1]
+                    a = attrs[0]
+                    if a == sargs or (sargs.startswith(a) and
+                                      sargs[len(a):len(a) + 1] <= ' '):
+                        name = 'unless'
+            self.block1(n, name, attrs, n['body'])
         elif k == 'in':
             attrs = _ref_attrs(sx, st, n['ref'], pin=self.pin(n)) + \
                 _opts(sx, st, n.get('opts', ()))
